@@ -583,12 +583,28 @@ impl<const N: usize, const P: usize, const TXN: usize> crate::phy::ProfibusPhy f
         r
     }
 
-    fn receive_data<F, R>(&mut self, _now: crate::time::Instant, _f: F) -> R
+    fn receive_data<F, R>(&mut self, _now: crate::time::Instant, f: F) -> R
     where
         F: FnOnce(&[u8]) -> (usize, R),
     {
-        // All receive helpers are overridden; raw access is not used by the FDL layer.
-        unreachable!("TPhy: raw receive_data is not modelled")
+        // The FDL layer uses the telegram-level helpers (all overridden here).  Raw access is
+        // modelled only as far as a telegram-level buffer can express it: the caller sees
+        // arbitrary bytes of the buffered length and may drop nothing or everything.
+        vassert!(!self.transmitting, "C01/phy-contract: nothing is received while a transmission is in progress");
+        self.rx_calls += 1;
+        let bytes: [u8; 64] = kani::any();
+        let len = self.pending();
+        kani::assume(len <= 64);
+        let (d, r) = f(&bytes[..len]);
+        vassert!(d <= len, "C01/phy-contract: never more bytes dropped than offered");
+        if d == len {
+            self.next = self.n;
+            self.tail = Tail::Empty;
+            self.tail_len = 0;
+        } else {
+            assert!(d == 0, "TPhy: a partial raw drop cannot be expressed by the telegram-level PHY model (harness limitation)");
+        }
+        r
     }
 
     fn receive_telegram<F, R>(&mut self, _now: crate::time::Instant, f: F) -> Option<R>
